@@ -395,7 +395,9 @@ export class NativeNode extends Element {
     try {
       listener.call(this, MODEL_PROBE)
       const w = host.modelWrites
-      this.modelPaths.set(propName, w.length === 1 && w[0][1] === MODEL_PROBE ? w[0][0] : { unexpectedWrites: w.map((x) => x[0]) })
+      // a listener that writes nothing is how the wrapper clears a binding (path became null): same as none
+      if (w.length === 0) this.modelPaths.delete(propName)
+      else this.modelPaths.set(propName, w.length === 1 && w[0][1] === MODEL_PROBE ? w[0][0] : { unexpectedWrites: w.map((x) => x[0]) })
     } catch (e) {
       this.modelPaths.set(propName, { probeError: errMsg(e) })
     }
